@@ -77,33 +77,6 @@ Definition apply_decision (d : decision) (sh r : action) : list action :=
   end.
 
 (* ------------------------------------------------------------------ *)
-(* What rustemo implements differs from the documented table in exactly one
-   place: the terminal-level associativity is read the other way round
-   (terminal `right`/`shift` keeps the reduction, terminal `left`/`reduce` keeps
-   the shift). [decide_impl] is the documented table with that one input
-   flipped; Proofs/Resolve.v shows the code computes [decide_impl]. *)
-Definition flip_assoc (a : assoc) : assoc :=
-  match a with
-  | ANone => ANone
-  | ALeft => ARight
-  | ARight => ALeft
-  end.
-
-Definition decide_impl (prod_prio shift_prio : nat) (prod_assoc term_assoc : assoc)
-           (empty ps pse nops nopse : bool) : decision :=
-  decide prod_prio shift_prio prod_assoc (flip_assoc term_assoc) empty ps pse nops nopse.
-
-(* Known class 1 (key terminal-assoc-inverted): the conflicts that a terminal-level
-   associativity decides. *)
-Definition term_assoc_decides_b (prod_prio shift_prio : nat) (term_assoc : assoc) : bool :=
-  (prod_prio =? shift_prio) && (match term_assoc with ANone => false | _ => true end).
-
-(* the implementation lets the reduction win over the shift *)
-Definition reduce_wins_impl_b (prod_prio shift_prio : nat) (prod_assoc term_assoc : assoc) : bool :=
-  decision_eqb (decide_impl prod_prio shift_prio prod_assoc term_assoc false false false false false)
-               KeepReduce.
-
-(* ------------------------------------------------------------------ *)
 (* Reduce/reduce: "higher priority wins"; otherwise LR keeps non-empty
    reductions in preference to empty ones and GLR keeps everything. *)
 Inductive rr_decision := RRDropNew | RRReplaceOld | RRKeepAll | RRNonEmptyOverEmpty.
